@@ -446,8 +446,8 @@ impl<'a> Gen<'a> {
             0..=3 => { let l = self.payload_len(); let mut b = self.rng.bytes(l); b[0] &= 0x7f; b }     // SRT data
             4 => { let ty = *self.rng.pick(&[0x8000u16, 0x8001, 0x8004, 0x8005, 0x8006, 0x8007, 0xffff]); let l = self.payload_len(); self.with_type(ty, l) }
             5 | 6 => self.srt_ack(),
-            7 | 8 => self.nak(),
-            9..=11 => self.srtla_ack(arrival),
+            7 | 8 => if *self.mtu_quota > 0 && self.rng.chance(1, 12) { *self.mtu_quota -= 1; self.long_list(0x8003) } else { self.nak() },
+            9..=11 => if *self.mtu_quota > 0 && self.rng.chance(1, 16) { *self.mtu_quota -= 1; self.long_list(0x9100) } else { self.srtla_ack(arrival) },
             12..=14 => self.keepalive(now),
             15 | 16 => self.reg_frame(),
             17 => { let l = self.rng.below(3) as usize; self.rng.bytes(l) }                              // 0..2 bytes
@@ -458,6 +458,25 @@ impl<'a> Gen<'a> {
             }
             _ => { let l = self.rng.range(0, 64) as usize; self.rng.bytes(l) }
         }
+    }
+    /// an MTU-size NAK (singles, a few ranges) or SRTLA ACK naming recent numbers
+    fn long_list(&mut self, ty: u16) -> Vec<u8> {
+        let n = *self.rng.pick(&[1316usize, 1456, 1499, 1500]);
+        let mut b = vec![(ty >> 8) as u8, ty as u8, 0, 0];
+        while b.len() + 4 <= n {
+            let mut v = if self.rng.chance(1, 3) { self.some_seq() } else { self.next_seq.wrapping_sub(self.rng.below(400) as u32) };
+            if ty == 0x8003 {
+                v &= 0x7fff_ffff;
+                if self.rng.chance(1, 40) && b.len() + 8 <= n {
+                    b.extend_from_slice(&(v | 0x8000_0000).to_be_bytes());
+                    v = v.wrapping_add(self.rng.below(6) as u32);
+                }
+            }
+            b.extend_from_slice(&v.to_be_bytes());
+        }
+        let pad = n - b.len();
+        b.extend_from_slice(&self.rng.bytes(pad));
+        b
     }
     fn full_for(&mut self, d: &[u8]) -> bool {
         if d.len() <= 64 { return true; }
@@ -552,11 +571,19 @@ fn fam_prelude(seed: u64, len: usize, part: u32) -> (usize, Vec<Op>, u64, u64, b
 }
 
 fn family(run: &mut Run, w: &mut World, seed: u64, len: usize, salt: u64) {
-    for part in 0..16u32 {
+    let all: Vec<u32> = (0..256).collect();
+    family_blocks(run, w, seed, len, salt, &all, 16);
+    run.note(format!("family: all 65536 type codes at length {} (salt {}) on a prepared link — frames generated inside Coq, block checksums of the whole observation cross", len, salt));
+}
+
+/// `blks`: 256-code blocks to run, grouped `group` consecutive list entries per case (entries of one
+/// group must be consecutive block numbers within one part of 16)
+fn family_blocks(run: &mut Run, w: &mut World, seed: u64, len: usize, salt: u64, blks: &[u32], group: usize) {
+    for chunk in blks.chunks(group) {
+        let part = chunk[0] / 16;
         let (n, pre, target, now0, classic) = fam_prelude(seed, len, part);
         let mut blocks = vec![];
-        for blk in 0..16u32 {
-            let k = part * 16 + blk;
+        for &k in chunk {
             w.reset(n);
             for o in &pre { w.apply(o); }
             let _ = w.drain();
@@ -570,14 +597,13 @@ fn family(run: &mut Run, w: &mut World, seed: u64, len: usize, salt: u64) {
             }
             blocks.push(acc.0);
         }
-        run.count_n("family:frames", 4096);
+        run.count_n("family:frames", 256 * chunk.len() as u64);
         let ids = zlist((0..n).map(|i| conn_id_of(i) as i128));
         let pre_lit: Vec<String> = pre.iter().map(op_lit).collect();
         run.push_cost("family", true,
-            format!("CFam {} {} {} {} [{}] {} {} {} {}", len, salt, part * 16, ids, pre_lit.join(";"), target, now0, boolc(classic), zlist(blocks)),
-            80_000 + len * 3000);
+            format!("CFam {} {} {} {} [{}] {} {} {} {}", len, salt, chunk[0], ids, pre_lit.join(";"), target, now0, boolc(classic), zlist(blocks)),
+            (5_000 + len * 200) * chunk.len());
     }
-    run.note(format!("family: all 65536 type codes at length {} (salt {}) on a prepared link — frames generated inside Coq, block checksums of the whole observation cross", len, salt));
 }
 
 /// fixed histories that are run on every check (each documents one clause of the property)
@@ -646,12 +672,17 @@ pub fn run(seed: u64, tier: &str, out: &Path, extra: &[(String, String)]) -> std
     if thorough {
         for &l in &lens { family(&mut run, &mut w, seed, l, salt); }
         family(&mut run, &mut w, seed, 258, salt);
+        // MTU-size frames: the blocks holding every type code the dispatch distinguishes, their
+        // neighbours and the extremes (a full sweep at this length is too much text-free work for Coq)
+        let sel = [0x00u32, 0x7f, 0x80, 0x81, 0x8f, 0x90, 0x91, 0x92, 0x93, 0xff];
+        family_blocks(&mut run, &mut w, seed, 1500, salt, &sel, 1);
+        run.note(format!("family: type-code blocks {:02x?} at length 1500", sel));
     } else {
         family(&mut run, &mut w, seed, lens[(seed as usize) % lens.len()], salt);
     }
 
     // generated histories
-    let ncases = if thorough { 3000 } else { 220 };
+    let ncases = if thorough { 2200 } else { 220 };
     let mut mtu_quota = if thorough { 600 } else { 40 };
     for k in 0..ncases {
         let n = 1 + (rng.below(MAX_LINKS as u64) as usize);
